@@ -68,7 +68,7 @@ def CSt.owed (c : CSt) : Option String :=
 
 def renderEvent (c : CSt) : Event → String
   | .data s b _ => s!"data {c.ordOf s} {b.length} {fnv b}"
-  | .disconnect s a r => s!"disconnect {c.ordOf s} {a} {match r with | .eof => "eof" | .fail => "fail" | .poll => "poll"}"
+  | .disconnect s a r => s!"disconnect {c.ordOf s} {a} {match r with | .eof => "eof" | .fail => "fail" | .poll => "poll"} reg=0"
   | .connect a k addr => s!"connect {c.ordOf a} {c.ordOf k} {addr}"
 
 /-- mark sockets destroyed (by the user, possibly inside a handler) in the reference bookkeeping -/
@@ -163,7 +163,7 @@ partial def go (c : CSt) : List String → Verdict
                     .error s!"receive handler of socket {i} got {len} bytes (hash {hash}) that are not the next bytes the peer sent (offset {k.delivered} of {k.stream.length})"
                   else .ok (c.setConn { k with delivered := k.delivered + len }, len, if len = k.rx then "data.full" else "data")
             | _, _ => .error "bad data event"
-          | [["ev", "disconnect", i, addr, reason, _]] =>
+          | [["ev", "disconnect", i, addr, reason, _, _]] =>
             match i.toNat? with
             | some i =>
               match c.conn i with
